@@ -674,10 +674,10 @@ SEEDS["C07_returns_none"] = ("C07", [(D, """                        else:
 SEEDS["C07_old_style_drops_result"] = ("C07", [(D, """                try:
                     return fn(*args, **kwargs)
                 except Exception as e:
-                    # add_note""", """                try:
+                    # Adding""", """                try:
                     fn(*args, **kwargs)
                 except Exception as e:
-                    # add_note""")], "C07.1")
+                    # Adding""")], "C07.1")
 SEEDS["C07_call_before_param_check"] = ("C07", [(D, """            def wrapped_fn_impl(args, kwargs, bound, memos):
                 __tracebackhide__ = True
 """, """            def wrapped_fn_impl(args, kwargs, bound, memos):
@@ -1530,3 +1530,96 @@ TWINS["C08_twin_positive_test"] = ("C08", [(P, """                if not is_chec
                 else:
                     return False
             else:""")])
+
+
+# ------------------------------------------------------------------------- wave 3 (rules added after the third batch of independent seeds)
+SEEDS["C07_note_unprotected"] = ("C07", [(D, """                    try:
+                        # add_note api is support from python 3.11+
+                        if sys.version_info >= (3, 11) and _no_jaxtyping_note(e):
+                            shape_info = shape_str(memos)
+                            if shape_info != "":
+                                msg = (
+                                    "The preceding error occurred within the scope of "
+                                    "a `jaxtyping.jaxtyped` function, and may be due "
+                                    "to a typecheck error. "
+                                )
+                                e.add_note(
+                                    _jaxtyping_note_str(_spacer + msg + shape_info)
+                                )
+                    except Exception:
+                        pass
+                    raise""", """                    if sys.version_info >= (3, 11) and _no_jaxtyping_note(e):
+                        shape_info = shape_str(memos)
+                        if shape_info != "":
+                            e.add_note(_jaxtyping_note_str(_spacer + shape_info))
+                    raise""")], "C07.8")
+SEEDS["C07_handler_swallows_body_exception"] = ("C07", [(D, """                    except Exception:
+                        pass
+                    raise""", """                    except Exception:
+                        pass
+                    return None""")], "C07")
+SEEDS["C07_newstyle_translates_body_exception"] = ("C07", [(D, """                out = fn(*args, **kwargs)
+
+                if full_signature""", """                try:
+                    out = fn(*args, **kwargs)
+                except Exception as e:
+                    raise RuntimeError(f"{fn.__name__} failed") from e
+
+                if full_signature""")], "C07.8")
+TWINS["C07_twin_note_in_helper_protected"] = ("C07", [(D, """                    try:
+                        # add_note api is support from python 3.11+
+                        if sys.version_info >= (3, 11) and _no_jaxtyping_note(e):
+                            shape_info = shape_str(memos)
+                            if shape_info != "":
+                                msg = (
+                                    "The preceding error occurred within the scope of "
+                                    "a `jaxtyping.jaxtyped` function, and may be due "
+                                    "to a typecheck error. "
+                                )
+                                e.add_note(
+                                    _jaxtyping_note_str(_spacer + msg + shape_info)
+                                )
+                    except Exception:
+                        pass
+                    raise""", """                    try:
+                        _attach_note(e, memos)
+                    except Exception:
+                        pass
+                    raise"""), (D, """def _no_jaxtyping_note(e: Exception) -> bool:""", """def _attach_note(e, memos):
+    if sys.version_info >= (3, 11) and _no_jaxtyping_note(e):
+        shape_info = shape_str(memos)
+        if shape_info != "":
+            e.add_note(_jaxtyping_note_str(_spacer + shape_info))
+
+
+def _no_jaxtyping_note(e: Exception) -> bool:""")])
+SEEDS["C18_fallback_uninstrumented"] = ("C18", [(H, """        tree = JaxtypingTransformer(typechecker=self._typechecker).visit(tree)
+        ast.fix_missing_locations(tree)
+        return _call_with_frames_removed(
+            compile, tree, path, "exec", dont_inherit=True, optimize=_optimize
+        )""", """        try:
+            tree = JaxtypingTransformer(typechecker=self._typechecker).visit(tree)
+            ast.fix_missing_locations(tree)
+            return _call_with_frames_removed(
+                compile, tree, path, "exec", dont_inherit=True, optimize=_optimize
+            )
+        except RecursionError:
+            return super().source_to_code(data, path, _optimize=_optimize)""")], "C18.6")
+SEEDS["C10_fallback_uninstrumented"] = ("C10", SEEDS["C18_fallback_uninstrumented"][1], "C10.7")
+SEEDS["C18_fastpath_plain_compile"] = ("C18", [(H, """        tree = JaxtypingTransformer(typechecker=self._typechecker).visit(tree)""", """        if not any(isinstance(n, (ast.FunctionDef, ast.ClassDef)) for n in tree.body):
+            return _call_with_frames_removed(compile, data, path, "exec", dont_inherit=True, optimize=_optimize)
+        tree = JaxtypingTransformer(typechecker=self._typechecker).visit(tree)""")], "C18.6")
+RESTORE_LOOP = """            if memo is not new_memo:
+                memo.clear()
+                memo.update(new_memo)"""
+SEEDS["C04_restore_skipped_same_size"] = ("C04", [(S, RESTORE_LOOP, """            if memo is not new_memo and len(memo) != len(new_memo):
+                memo.clear()
+                memo.update(new_memo)""")], "C04.4")
+SEEDS["C08_restore_skipped_same_size"] = ("C08", SEEDS["C04_restore_skipped_same_size"][1], "C08.6")
+SEEDS["C05_restore_skipped_same_keys"] = ("C05", [(S, RESTORE_LOOP, """            if memo is not new_memo and memo.keys() != new_memo.keys():
+                memo.clear()
+                memo.update(new_memo)""")], "C05.4")
+TWINS["C04_twin_restore_guard_flipped"] = ("C04", [(S, RESTORE_LOOP, """            if memo is new_memo:
+                continue
+            memo.clear()
+            memo.update(new_memo)""")])
